@@ -72,6 +72,41 @@ fn check_size(id: u8, w: u32, h: u32, pixels: &[(u32, u32)], rng: &mut Rng, rep:
         }
     }
 
+    // 2b. the same placement rule on a page built over BORROWED bytes that already hold a picture: setting or clearing
+    //     pixel (x, y) changes exactly that bit of exactly that byte, whatever else is lit in the byte
+    if !pixels.is_empty() {
+        let backing: Vec<u8> = {
+            let mut b = rng.bytes(expected_len);
+            b[0] = id;
+            b
+        };
+        for &(x, y) in pixels.iter().step_by((pixels.len() / 64).max(1)) {
+            for value in [true, false] {
+                rep.count("pixels_checked_on_borrowed_pages");
+                let r = catch(|| {
+                    let mut p = Page::from_bytes(w, h, &backing[..]).expect("padded length");
+                    p.set_pixel(x, y, value);
+                    (p.as_bytes().to_vec(), p.get_pixel(x, y))
+                });
+                let idx = 4 + (x as usize) * cb + (y as usize) / 8;
+                let mut expect = backing.clone();
+                if value {
+                    expect[idx] |= 1 << (y % 8);
+                } else {
+                    expect[idx] &= !(1 << (y % 8));
+                }
+                match r {
+                    Ok((b, got)) => {
+                        if b != expect || got != value {
+                            fail(rep, "pixel_position_on_borrowed_page", w, h, &format!("set({},{},{}) over bytes {}", x, y, value, hex(&backing[..backing.len().min(24)])), format!("byte {} is {:02x}, expected {:02x}; pixel reads {}", idx, b.get(idx).copied().unwrap_or(0), expect[idx], got));
+                        }
+                    }
+                    Err(p) => fail(rep, "panic", w, h, &format!("set({},{}) on a borrowed page", x, y), format!("{} at {}", p.msg, short_loc(&p.loc))),
+                }
+            }
+        }
+    }
+
     // 3. from_bytes: every candidate length around the expected one, from Vec and from slice
     let mut lens: Vec<usize> = (expected_len.saturating_sub(17)..=expected_len + 17).collect();
     lens.push(0);
@@ -210,6 +245,7 @@ pub fn run(ctx: &Ctx) -> Outcome {
         floor("all 256 ids", report.set_len("ids") == 256, report.set_len("ids")),
         floor("sizes whose data ends on a 16-byte boundary", report.get("sizes_ending_on_16_byte_boundary") > 0, report.get("sizes_ending_on_16_byte_boundary")),
         floor("column byte counts 0..=5 all seen", report.set_len("column_bytes") >= 6, report.set_len("column_bytes")),
+        floor("pixel placement also checked on borrowed pages with existing content", report.get("pixels_checked_on_borrowed_pages") > 10_000, report.get("pixels_checked_on_borrowed_pages")),
         floor("from_bytes both accepted and rejected", report.get("from_bytes_accepted") > 0 && report.get("from_bytes_rejected") > 0, report.get("from_bytes_rejected")),
     ];
     Outcome {
